@@ -103,6 +103,34 @@ def run(P, rep, tier):
     rep.exempt('C15.OWN', 'EB_MALLOC_DEC family (%d fields)' % ndecmap, 'registered in svt_dec_memory_map and released by the list walk in svt_av1_dec_deinit')
     rep.floor('C15.OWN', 250)
 
+    # ---------------- DECMAP: memory obtained through the EB_MALLOC_DEC family is registered in the decoder memory map and is
+    # released by the list walk of svt_av1_dec_deinit; a raw free() of the same pointer releases it twice
+    DEC_MACROS = ('EB_MALLOC_DEC', 'EB_ALLIGN_MALLOC_DEC', 'EB_CALLOC_DEC')
+    decfields = set()
+    ndm = 0
+    for f in live:
+        if f.lib != 'Decoder':
+            continue
+        al = [(ev, lf, t) for ev, lf, kind, lvl, mac, t in alloc_sites(f) if kind == 'DECMAP']
+        frees = [ev for ev, nm in f.calls('free') if not any(m in DEC_MACROS for m in ev.get('mx', ()))]
+        for ev, lf, t in al:
+            if lf:
+                decfields.add(lf)
+            ndm += 1
+            dbl = [fe for fe in frees if pstr(strip(fe['e'][2][0])) == pstr(strip(t))]
+            rep.ob('C15.DECMAP', '%s/%s' % (f.name, pstr(strip(t))[:60]), not dbl, f.loc(dbl[0]) if dbl else f.loc(ev),
+                   'registered in the decoder memory map; %s' % ('also passed to free() here: svt_av1_dec_deinit frees it a second time' if dbl else 'released only by the map walk'))
+    for f in live:
+        if f.lib != 'Decoder':
+            continue
+        for fe, nm in f.calls('free'):
+            if any(m in DEC_MACROS for m in fe.get('mx', ())):
+                continue
+            lf = last_field(strip(fe['e'][2][0]))
+            if lf in decfields:
+                rep.ob('C15.DECMAP', '%s/free:%s' % (f.name, lf), False, f.loc(fe), '%s holds map-registered memory and is passed to free(): released twice at deinit' % lf)
+    rep.floor('C15.DECMAP', 60)
+
     # ---------------- COUNT: a member whose cells are allocated in a loop must be released by a loop that covers as many cells.
     # Bounds are compared after canonical expansion: single-definition locals are replaced by their defining expression,
     # constructor parameters keep their name, and object fields are replaced by the expression the (single) init-time store
